@@ -13,7 +13,7 @@ LEVEL_TEXT = ("Theorems about the history-buffer functions regenerated from hist
               "the invariant (strictly increasing logical times) through any number of insertions incl. wrap-around; read refines the spec for ZOH/linear/cubic; end-to-end: from MuJoCo's "
               "initial buffer, after k steps the ZOH read at k*dt - m*dt returns c_(k-m) (0 before) for any k, n, 1<=m<=n, also through the two ctrl kernels. "
               "make_data now starts from MuJoCo's initial buffer (fix: commit); reset_data still does not restore it (known finding). Real step() is compared with mujoco.mj_step on delayed models.")
-LEVEL_NOTE = "C30_partial: vector (dim>1) buffers and sensor interval logic are sampled only; dt must exceed the 1e-6 merge window. Trusted: Lean kernel + Mathlib, translator (func/kernel differentials)."
+LEVEL_NOTE = "C30_partial: vector (dim>1) buffers and sensor interval logic (period not a multiple of the timestep, negative phase) are sampled only; dt must exceed the 1e-6 merge window. Trusted: Lean kernel + Mathlib, translator (func/kernel differentials)."
 ASSUMPTIONS = ["times on a grid coarser than 2e-6 (k*timestep)", "oracle: mujoco.mj_step with the same controls, comparing ctrl-driven qvel/qpos and delayed sensordata"]
 
 XML = """
@@ -27,7 +27,7 @@ XML = """
     <motor joint="j" delay="{d1}" nsample="{n1}" interp="{i1}"/>
     <motor joint="k"/>
   </actuator>
-  <sensor><jointpos joint="j" delay="{d2}" nsample="{n2}" interp="{i2}"/><jointvel joint="k"/></sensor>
+  <sensor><jointpos joint="j" delay="{d2}" nsample="{n2}" interp="{i2}"/><jointvel joint="k"/>{isens}</sensor>
 </mujoco>
 """
 
@@ -47,7 +47,17 @@ def _run(ctx, ncases, rec):
       i1 = str(rng.choice(["zoh", "linear", "cubic"]))
       i2 = str(rng.choice(["zoh", "linear"]))
       frac = float(rng.choice([1.0, 1.0, 0.5]))
-      xml = XML.format(dt=dt, d1=m1 * dt * frac, n1=n1, i1=i1, d2=m2 * dt, n2=n2, i2=i2)
+      # interval sensors: the period is NOT a multiple of the timestep (k + 0.37 steps) and the phase may be negative, so that the
+      # sampling thresholds phase + j*period stay well away from step times (no float32 tie) and "advance by exactly one period"
+      # differs from "restart at the current time" from the second sample on
+      isens = ""
+      if rng.random() < 0.6:
+        kper = int(rng.integers(1, 4)) + 0.37
+        ph = float(rng.choice([0.0, -0.45])) * dt
+        isens += f'<jointpos joint="k" interval="{kper * dt:.9g} {ph:.9g}" nsample="{int(rng.integers(2, 5))}"/>'
+        if rng.random() < 0.5:
+          isens += f'<jointvel joint="j" delay="{2 * dt:.9g}" interval="{(kper + 1) * dt:.9g} 0" nsample="5" interp="linear"/>'
+      xml = XML.format(dt=dt, d1=m1 * dt * frac, n1=n1, i1=i1, d2=m2 * dt, n2=n2, i2=i2, isens=isens)
       try:
         mjm = mujoco.MjModel.from_xml_string(xml)
       except ValueError as e:
@@ -88,6 +98,7 @@ def _run(ctx, ncases, rec):
           break
       acc.distinct.add((dt, n1, n2, m1, m2, i1, i2, start, frac))
       acc.hit(start)
+      acc.hit('interval-sensor' if isens else 'no-interval-sensor')
       acc.hit("wrap" if nsteps > max(n1, n2) else "nowrap")
       acc.sample({"dt": dt, "nsample": [n1, n2], "delay_steps": [m1 * frac, m2], "interp": [i1, i2], "start": start, "steps": nsteps})
 
